@@ -107,6 +107,9 @@ def classify(e):
     return "other:" + type(e).__name__ + ":" + m[:60]
 
 
+CREATED = []      # identifiers of all containers created in this process, in creation order (filled by the observer below)
+
+
 def install_observers():
     """record, without touching the repository, what the OOM killer sees and whom it kills"""
     from eudoxia.executor.resource_pool import ResourcePool
@@ -128,8 +131,15 @@ def install_observers():
             v.append(self.container_id)
         return orig_kill(self, *a, **kw)
 
+    orig_init = Container.__init__
+
+    def init(self, *a, **kw):
+        orig_init(self, *a, **kw)
+        CREATED.append(self.container_id)      # creation order of containers, whatever their identifiers look like
+
     ResourcePool._run_out_of_memory_killer = killer
     Container.kill = kill
+    Container.__init__ = init
     ResourcePool._verif_wrapped = True
 
 
@@ -172,8 +182,7 @@ class Impl:
         self.LET = {OperatorState.PENDING: 'P', OperatorState.ASSIGNED: 'A', OperatorState.RUNNING: 'R',
                     OperatorState.SUSPENDING: 'S', OperatorState.COMPLETED: 'C', OperatorState.FAILED: 'F'}
         self.pend_a, self.pend_s = [], []
-        from eudoxia.executor.container import Container
-        self.next_num = Container.next_container_num
+        self.next_num = len(CREATED)
 
     def qv(self, x):
         return to_q(F(x), self.q)
@@ -187,12 +196,10 @@ class Impl:
     def register(self, results=None):
         """number the containers created since the last call, in creation order (the class-level counter
         tells exactly which ids were handed out, also for containers that started and ended inside one tick)"""
-        from eudoxia.executor.container import Container
-        for n in range(self.next_num, Container.next_container_num):
-            cid = f"c{n}"
+        for cid in CREATED[self.next_num:]:
             self.cids[cid] = len(self.cids)
             self.rcids[self.cids[cid]] = cid
-        self.next_num = Container.next_container_num
+        self.next_num = len(CREATED)
 
     def world(self):
         pools = []
